@@ -62,15 +62,15 @@ var fileOps = []string{"f.read", "f.readat", "f.write", "f.writeat", "f.seek", "
 func kindsFor(op string) []string {
 	switch op {
 	case "mkdir", "mkdirall":
-		return []string{"noop", "twice", "drop", "wrongperm", "wrongerr", "wrappederr", "wrongpath", "overlap"}
+		return []string{"noop", "twice", "drop", "wrongperm", "wrongerr", "wrappederr", "wrongpath", "gluedpath", "overlap"}
 	case "openfile":
 		return []string{"drop", "wrongperm", "wrongerr", "wrappederr", "wrongpath", "notrunc", "overlap"}
 	case "open":
-		return []string{"wrongerr", "wrappederr", "wrongpath"}
+		return []string{"wrongerr", "wrappederr", "wrongpath", "gluedpath"}
 	case "remove":
-		return []string{"noop", "wrongerr", "weakerr", "wrappederr", "wrongpath", "overlap"}
+		return []string{"noop", "wrongerr", "weakerr", "wrappederr", "wrongpath", "gluedpath", "overlap"}
 	case "rename":
-		return []string{"noop", "leavebehind", "wrongerr", "weakerr", "wrongpath", "wrongnewpath"}
+		return []string{"noop", "leavebehind", "wrongerr", "weakerr", "wrongpath", "wrongnewpath", "gluedpath"}
 	case "stat":
 		return []string{"wrongsize", "wrongperm", "wrongerr", "wrongname"}
 	case "f.stat":
@@ -360,6 +360,18 @@ func wrappedErr(err error) error {
 	return err
 }
 
+// gluedPath puts a prefix in front of the error's paths WITHOUT a separator ("mntfoo" for "foo"). The suite is run with
+// Constraints.AllowErrPathPrefix for these deviants: that option allows a directory prefix ("mnt/foo"), not this.
+func gluedPath(err error) error {
+	switch e := err.(type) {
+	case *hackpadfs.PathError:
+		return &hackpadfs.PathError{Op: e.Op, Path: "mnt" + e.Path, Err: e.Err}
+	case *hackpadfs.LinkError:
+		return &hackpadfs.LinkError{Op: e.Op, Old: "mnt" + e.Old, New: "mnt" + e.New, Err: e.Err}
+	}
+	return err
+}
+
 func weakerErr(err error) error {
 	if err == nil || !errors.Is(err, hackpadfs.ErrNotEmpty) {
 		return err
@@ -391,6 +403,8 @@ func (d *devFS) Open(name string) (hackpadfs.File, error) {
 			err = wrongErr(err)
 		case "wrappederr":
 			err = wrappedErr(err)
+		case "gluedpath":
+			err = gluedPath(err)
 		case "wrongpath":
 			err = wrongPath(err)
 		}
@@ -423,6 +437,8 @@ func (d *devFS) OpenFile(name string, flag int, perm hackpadfs.FileMode) (hackpa
 			err = wrongErr(err)
 		case "wrappederr":
 			err = wrappedErr(err)
+		case "gluedpath":
+			err = gluedPath(err)
 		case "wrongpath":
 			err = wrongPath(err)
 		case "drop":
@@ -464,6 +480,8 @@ func (d *devFS) mkdirLike(op, name string, perm hackpadfs.FileMode, call func(st
 			err = wrongErr(err)
 		case "wrappederr":
 			err = wrappedErr(err)
+		case "gluedpath":
+			err = gluedPath(err)
 		case "wrongpath":
 			err = wrongPath(err)
 		case "drop":
@@ -507,6 +525,8 @@ func (d *devFS) Remove(name string) error {
 			err = wrongErr(err)
 		case "wrappederr":
 			err = wrappedErr(err)
+		case "gluedpath":
+			err = gluedPath(err)
 		case "weakerr":
 			err = weakerErr(err)
 		case "wrongpath":
@@ -546,6 +566,8 @@ func (d *devFS) Rename(oldname, newname string) error {
 			err = weakerErr(err)
 		case "wrongpath":
 			err = wrongPath(err)
+		case "gluedpath":
+			err = gluedPath(err)
 		case "wrongnewpath":
 			// only the SECOND path of the two-path error is off (as a layer that strips its prefix from one of them would leave it)
 			if e, ok := err.(*hackpadfs.LinkError); ok {
@@ -905,6 +927,10 @@ func TestSuiteChild(t *testing.T) {
 		}
 		return &devFS{inner: inner, sp: sp, scenario: tb.Name(), counts: map[string]int{}}
 	}}
+	if sp.Kind == "gluedpath" {
+		// the option under which a file system may name a directory prefix in its error paths (a mount or Sub layer)
+		opts.Constraints.AllowErrPathPrefix = true
+	}
 	fstest.FS(t, opts)
 	fstest.File(t, opts)
 }
